@@ -129,7 +129,7 @@ func TestVerif_C16(t *testing.T) {
 		progs["three"] = map[string][]verifC16Save{"S1": {{"X", D}, {"Y", D}}, "S2": {{"Y", D}, {"X", D}}, "S3": {{"X", D}, {"Z", D}}}
 		names = append(names, "three")
 	}
-	bound := vh.Pick(r, 2, 3)
+	bound := vh.Pick(r, 2, 4)
 	for _, name := range names {
 		prog := progs[name]
 		sc := xplore.Scenario{
